@@ -73,8 +73,8 @@ claim('C13', 'Slice construction, containment (128-bit comparison, no wrap), fra
       'Trusted: K_W for file-backed parents (std::ifstream), independence of two OS file descriptions.')
 claim('C14', 'MemoryWriter operations proved over the full 64-bit domain: a write/seek succeeds iff the mathematical target lies in the buffer, modifies exactly [offset, offset+n) (assigns clause), and otherwise changes nothing.',
       'Trusted: CBMC/DFCC, extraction rules. DynamicMemoryWriter / FileWriter / copy loop: see evidence groups and not_decided.')
-claim('C19', 'IsPowerOf2 exact for all 2^32 inputs against popcount==1; Log2OfPowerOf2 inverse of 1<<k for all 32 powers.',
-      'Trusted: CBMC. std::filesystem-based path helpers are not decided (no repository code to put under contract).')
+claim('C19', 'The comparator is proved (cvc5, quantified first-difference contract, unbounded lengths) to return exactly the lexicographic order of the lower-cased keys and IsEqual exactly key equality; irreflexivity, transitivity and incomparability <=> IsEqual (strict weak order) are proved as lemmas over the comparator contract only; IsPowerOf2 exact for all 2^32 inputs, Log2OfPowerOf2 for all 32 powers; ConvertToUpperInPlace per character.',
+      'Trusted: CBMC/cvc5, tolower/toupper in the C locale. Every std::filesystem-based path helper (PathsAreEqual, Append, GetFilename, GetDirectory, ChangeFileExtension, ExtensionMatches) is NOT decided: there is no repository code to put under contract. Strings longer than 2^31 characters are outside the comparator contract.')
 
 # ---- U-MAPH (C16, C07)
 def maph(fn, props, reach=NOEXC, replace=(), **kw):
@@ -101,3 +101,14 @@ G('maph.lemma_injective_anyheight', ['C16'], 'maph', None, harness='h_lemma_tile
   what='L16.1 injectivity for widths 2^5..2^10 and ANY 32-bit height')
 claim('C16', 'GetTileIndex proved equal to the 32-column block-order formula and < width*height for widths 2^5..2^10 and any 32-bit height; the formula is proved injective (quick: heights 1..256, the quantified domain; thorough: any height); every accessor is proved bit-exact against the serialised tile word, setters change exactly the named bits of exactly the addressed tile (ghost-index frame), out-of-range cell types are refused without change.',
       'Widths above 2^10 not decided (nonlinear). Accessors assume the tile\'s mapping index is < |tileMappings| for GetTilesetIndex/GetImageIndex (precondition). CBMC bit-field layout agrees with g++ (checked by the header\'s static_assert on sizeof and by native replay).')
+
+# ---- U-STR (C19 comparator, C01/C02 duplicate detection)
+TOLOWER_TRUST = 'tolower/toupper: C locale, key(c) = c+32 for A..Z, for every c in -128..255 (assumed contract, contracts/str.contracts)'
+G('str.IsEqual', ['C19', 'C01'], 'str', 'StringUtility_IsEqual', replace=['op2_tolower'], solver='cvc5', reach=NOEXC, timeout=900, trusted=[TOLOWER_TRUST], stage2='OP2_BOUNDED=4', replay={'driver': 'str_replay.cpp', 'case': 'cmp'})
+G('str.IsEqualCaseInsensitive', ['C19', 'C01', 'C02'], 'str', 'StringUtility_IsEqualCaseInsensitive', replace=['op2_tolower'], solver='cvc5', reach=NOEXC, timeout=600, trusted=[TOLOWER_TRUST], stage2='OP2_BOUNDED=4', replay={'driver': 'str_replay.cpp', 'case': 'cmp'})
+G('str.ConvertToUpperInPlace', ['C19'], 'str', 'StringUtility_ConvertToUpperInPlace', replace=['op2_toupper'], reach=NOEXC, timeout=600, trusted=[TOLOWER_TRUST])
+
+CMP = ['StringUtility_IsEqualCaseInsensitive', 'StringUtility_IsEqual']
+G('str.lemma_irreflexive', ['C19'], 'str', None, harness='h_lemma_irreflexive', replace=CMP, solver='cvc5', reach=[], timeout=600, stage2='OP2_BOUNDED=4', flags2=['--unwind', '6'], what='L19.1 over the comparator contract')
+G('str.lemma_incomparable', ['C19'], 'str', None, harness='h_lemma_incomparable_is_equal', replace=CMP, solver='cvc5', reach=[], timeout=600, stage2='OP2_BOUNDED=4', flags2=['--unwind', '6'], what='L19.3 incomparability <=> IsEqual; asymmetry')
+G('str.lemma_transitive', ['C19'], 'str', None, harness='h_lemma_transitive', replace=CMP, solver='cvc5', reach=[], timeout=600, stage2='OP2_BOUNDED=4', flags2=['--unwind', '6'], what='L19.2 transitivity')
